@@ -351,8 +351,17 @@ def run_c16(R, tier, rng):
             C.cmp(f"max {vn} {tag}", "max/" + vn, nt, lambda: num(mkv().max(), dense.max()), lambda: key(dense.max()))
             if dt != "bool" or True:
                 bins = [-3, 0, 1, 2, 4, 2 ** 41]
+                if vn == "plain" and dt != "bool":
+                    hk = lambda h: [kl(h[0]), kl(h[1])]
                 if vn == "plain" and dt != "bool":      # the keyword forms: density, range, an integer number of bins (edges and densities compared bit by bit)
                     hk = lambda h: [kl(h[0]), kl(h[1])]
+                    # edges given as an ndarray (F41), and edges whose last one is the largest value of the data (the last bin is closed on the right)
+                    top = float(np.max(dense.astype(float))) if np.all(np.isfinite(dense.astype(float))) else 4.0
+                    lo_ = float(np.min(dense.astype(float))) if np.all(np.isfinite(dense.astype(float))) else -3.0
+                    if lo_ < top:
+                        edges = [lo_ - 1.0, (lo_ + top) / 2.0, top]
+                        C.cmp(f"histogram last-edge=max {tag}", "histogram/closed-last-bin", nt, lambda: hk(np.histogram(mkv(), bins=edges)), lambda: hk(np.histogram(dense, bins=edges)), py=f"np.histogram(from_array({a!r}, {dt}), bins={edges})")
+                        C.cmp(f"histogram ndarray-edges {tag}", "histogram/ndarray-edges", nt, lambda: hk(np.histogram(mkv(), bins=np.array(edges))), lambda: hk(np.histogram(dense, bins=np.array(edges))), py=f"np.histogram(from_array({a!r}, {dt}), bins=np.array({edges}))")
                     for kname, kw in (("density", dict(bins=bins, density=True)), ("range+bins", dict(bins=4, range=(-3.0, 5.0))), ("positional-bins", None)):
                         if kw is None:
                             C.cmp(f"histogram positional {tag}", "histogram/keywords", nt, lambda: hk(np.histogram(mkv(), 5, (-2.0, 8.0))), lambda: hk(np.histogram(dense, 5, (-2.0, 8.0))), py=f"np.histogram(from_array({a!r}, {dt}), 5, (-2.0, 8.0))")
